@@ -40,6 +40,7 @@ type RunCfg struct {
 	HashMode   string             `json:"hashmode"` // stub (default) | registry
 	Flags      map[string]bool    `json:"flags"`    // read by the harness through vFlag
 	MaxPaths   int                `json:"maxpaths"`
+	MaxSecs    int                `json:"maxsecs"`
 	MaxSteps   int                `json:"maxsteps"`
 	MaxLoop    int                `json:"maxloop"`
 	Probes     []string           `json:"probes"`   // functions whose first parameter's pointee is recorded on return
